@@ -69,6 +69,8 @@ ParticleSet& ParticleSet::operator+=(const ParticleSet& rhs)
     weight_.conservativeResize(new_components);
     weight_.tail(rhs.components) = rhs.weight_;
 
+    components = new_components;
+
     return *this;
 }
 
